@@ -55,6 +55,26 @@ DESC = {
                 "a MOSFET-mode Rectifier with iq != 0 (solve differs only when its output current is exactly 0)"),
  "C16-agent2": ("C16", "change_comp keeps the old phase configuration when the name is unchanged (setdefault instead of assignment)",
                 "set_sys_phases + set_comp_phases(X) + change_comp(X -> same name) + a phase-aware report"),
+ "C04-agent3": ("C04", "_solve returns after ONE sweep when every source is off ('nothing is powered')",
+                "all sources dead in the phase and two voltage-generating stages cascaded below the dead source (off-state travels one level per sweep)"),
+ "C06-agent3": ("C06", "set_sys_phases prunes component phase configurations to the newly defined phase names",
+                "a component configuration naming a phase that is missing from a later set_sys_phases call (configured first / phases redefined)"),
+ "C08-agent3": ("C08", "rail power computed as |V * sum(I)| instead of summing the Power column",
+                "a loss-type load (Power 0, Loss V*I) directly on a named rail"),
+ "C10-agent3": ("C10", "LinReg no-load branch takes the ground current from _get_inp_current (table corner (io_min, vi_min))",
+                "an unloaded LinReg with a 2-D ig table and an input voltage away from the lowest vi row"),
+ "C11-agent3": ("C11", "_Interp1d no longer takes abs() of the tabulated values",
+                "a VLoss / diode Rectifier with a single-row vdrop table whose entries carry a negative sign"),
+ "C13-agent3": ("C13", "LinReg.from_file reads [limits] from inside the [linreg] table",
+                "a LinReg TOML file with a non-default [limits] section"),
+ "C14-agent3": ("C14", "add_comp's single-PMux rule uses _get_pmux() > 0 instead of != -1",
+                "the existing PMux sits at node index 0 (first source deleted, index re-used) and a second PMux is added"),
+ "C15-agent3": ("C15", "add_comp's alias-duplicate-parent check folded into the edge loop (after the component was registered)",
+                "a rejected add_comp of a PMux naming one parent by component name and by rail name"),
+ "C17-agent3": ("C17", "_get_warns normalises the limit pair in place (abs) - the list belongs to the component and to the caller",
+                "a non-tp limit with a negative bound on a component that is checked, then limits()/save()/the caller's dict inspected after a solve"),
+ "C18-agent3": ("C18", "time step without phases uses 3600/mult (the progress-bar multiplier) instead of 3.6",
+                "no phases and a probed capacity >= 100 Ah"),
 }
 
 res = {}
